@@ -84,17 +84,19 @@ def serial_pool():
 
 
 def values(rng, shape, mode, cplx=True):
-    """generated numbers; 'mixed' sprinkles exact zeros, +-1e-10 and ~1e3"""
+    """generated numbers; 'mixed' sprinkles exact zeros, +-1e-10, ~1e3, purely real / purely imaginary entries"""
     a = rng.uniform(-1, 1, size=shape)
     if cplx:
         a = a + 1j * rng.uniform(-1, 1, size=shape)
     if mode == "mixed":
-        sel = rng.integers(0, 6, size=shape)
+        sel = rng.integers(0, 8, size=shape)
         a = np.where(sel == 0, 0.0, a)
         a = np.where(sel == 1, 1e-10 * np.sign(a.real), a)
         a = np.where(sel == 2, 1e3 * a, a)
         if cplx:
             a = np.where(sel == 3, a.real, a)
+            a = np.where(sel == 4, 1j * a.imag, a)                  # purely imaginary (odd-parity projections at TRIM)
+            a = np.where(sel == 5, 1e-14 * a.real + 1j * a.imag, a)  # real part below the printed precision
     return a if cplx else a.real.astype(float)
 
 
